@@ -37,7 +37,7 @@ fn built<M: ShortMessage>(m: &M) -> Built {
 fn judge(ctor: &'static str, carrier: &'static str, args: [i64; 3], b: Option<Built>, exp: (u8, u8, u8), rep: &mut Report) {
     let rp = json!({"kind":"ctor","ctor":ctor,"carrier":carrier,"args":args});
     let Some(b) = b else {
-        rep.violation(
+        crate::viol!(rep, 
             format!("C06:panic:{}:{}", ctor, carrier),
             format!("{}::{}{:?} panicked", carrier, ctor, args),
             rp,
@@ -46,7 +46,7 @@ fn judge(ctor: &'static str, carrier: &'static str, args: [i64; 3], b: Option<Bu
     };
     let got = (b.bytes.0, b.bytes.1.get(), b.bytes.2.get());
     if got != exp {
-        rep.violation(
+        crate::viol!(rep, 
             format!("C06:bytes:{}:{}", ctor, carrier),
             format!("{}::{}{:?} built bytes {:?}, expected {:?}", carrier, ctor, args, got, exp),
             rp,
@@ -55,7 +55,7 @@ fn judge(ctor: &'static str, carrier: &'static str, args: [i64; 3], b: Option<Bu
     }
     // accessors must return the arguments: compare with the table view of the expected bytes
     if let Some((which, detail)) = super::c02::compare(&b.acc, exp.0, exp.1, exp.2) {
-        rep.violation(
+        crate::viol!(rep, 
             format!("C06:accessor:{}:{}:{}", ctor, carrier, which),
             format!("{}::{}{:?}.{}: {}", carrier, ctor, args, which, detail),
             rp,
@@ -163,7 +163,7 @@ fn generic<F: ShortMessageFactory + Copy>(carrier: &'static str, structured: boo
                         let exp = if structured { canon(tb | c, a, b) } else { (tb | c, a, b) };
                         let got = (bt.bytes.0, bt.bytes.1.get(), bt.bytes.2.get());
                         if got != exp || super::c02::compare(&bt.acc, exp.0, exp.1, exp.2).is_some() {
-                            rep.violation(
+                            crate::viol!(rep, 
                                 format!("C06:generic-bytes:channel_message:{}:{}", carrier, tname),
                                 format!("{}::channel_message({}, {}, {}, {}) built {:?} expected {:?}", carrier, tname, c, a, b, got, exp),
                                 rp,
@@ -175,12 +175,12 @@ fn generic<F: ShortMessageFactory + Copy>(carrier: &'static str, structured: boo
                         note_expected_panic("ShortMessageFactory::channel_message");
                         rep.distinct_nontrivial += 1;
                     }
-                    (Ok(bt), false) => rep.violation(
+                    (Ok(bt), false) => crate::viol!(rep, 
                         format!("C06:generic-no-panic:channel_message:{}:{}", carrier, tname),
                         format!("{}::channel_message({}, ..) did not panic for a non-channel type; built {:?}", carrier, tname, bt.bytes),
                         rp,
                     ),
-                    (Err(m), true) => rep.violation(
+                    (Err(m), true) => crate::viol!(rep, 
                         format!("C06:generic-panic:channel_message:{}:{}", carrier, tname),
                         format!("{}::channel_message({}, {}, {}, {}) panicked: {}", carrier, tname, c, a, b, m),
                         rp,
@@ -202,7 +202,7 @@ fn generic<F: ShortMessageFactory + Copy>(carrier: &'static str, structured: boo
                             let exp = if structured { canon(*tb, x, y) } else { (*tb, x, y) };
                             let got = (bt.bytes.0, bt.bytes.1.get(), bt.bytes.2.get());
                             if got != exp || super::c02::compare(&bt.acc, exp.0, exp.1, exp.2).is_some() {
-                                rep.violation(
+                                crate::viol!(rep, 
                                     format!("C06:generic-bytes:system_common_message:{}:{}", carrier, tname),
                                     format!("{}::system_common_message({}, {}, {}) built {:?} expected {:?}", carrier, tname, x, y, got, exp),
                                     rp,
@@ -211,12 +211,12 @@ fn generic<F: ShortMessageFactory + Copy>(carrier: &'static str, structured: boo
                             rep.distinct_nontrivial += 1;
                         }
                         (Err(_), false) => note_expected_panic("ShortMessageFactory::system_common_message"),
-                        (Ok(bt), false) => rep.violation(
+                        (Ok(bt), false) => crate::viol!(rep, 
                             format!("C06:generic-no-panic:system_common_message:{}:{}", carrier, tname),
                             format!("{}::system_common_message({}, ..) did not panic; built {:?}", carrier, tname, bt.bytes),
                             rp,
                         ),
-                        (Err(m), true) => rep.violation(
+                        (Err(m), true) => crate::viol!(rep, 
                             format!("C06:generic-panic:system_common_message:{}:{}", carrier, tname),
                             format!("{}::system_common_message({}, {}, {}) panicked: {}", carrier, tname, x, y, m),
                             rp,
@@ -235,7 +235,7 @@ fn generic<F: ShortMessageFactory + Copy>(carrier: &'static str, structured: boo
             (Ok(bt), true) => {
                 let got = (bt.bytes.0, bt.bytes.1.get(), bt.bytes.2.get());
                 if got != (*tb, 0, 0) || super::c02::compare(&bt.acc, *tb, 0, 0).is_some() {
-                    rep.violation(
+                    crate::viol!(rep, 
                         format!("C06:generic-bytes:system_real_time_message:{}:{}", carrier, tname),
                         format!("{}::system_real_time_message({}) built {:?}", carrier, tname, got),
                         rp,
@@ -243,12 +243,12 @@ fn generic<F: ShortMessageFactory + Copy>(carrier: &'static str, structured: boo
                 }
             }
             (Err(_), false) => note_expected_panic("ShortMessageFactory::system_real_time_message"),
-            (Ok(bt), false) => rep.violation(
+            (Ok(bt), false) => crate::viol!(rep, 
                 format!("C06:generic-no-panic:system_real_time_message:{}:{}", carrier, tname),
                 format!("{}::system_real_time_message({}) did not panic; built {:?}", carrier, tname, bt.bytes),
                 rp,
             ),
-            (Err(m), true) => rep.violation(
+            (Err(m), true) => crate::viol!(rep, 
                 format!("C06:generic-panic:system_real_time_message:{}:{}", carrier, tname),
                 format!("{}::system_real_time_message({}) panicked: {}", carrier, tname, m),
                 rp,
@@ -277,7 +277,7 @@ fn shorthands(cfg: &Cfg, rep: &mut Report) {
             (Ok(got), true) => {
                 rep.distinct_nontrivial += 1;
                 if got != exp {
-                    rep.violation(
+                    crate::viol!(rep, 
                         format!("C06:shorthand-bytes:{}", name),
                         format!("test_util::{}{:?} built {:?}, expected {:?}", name, args, got, exp),
                         rp,
@@ -288,12 +288,12 @@ fn shorthands(cfg: &Cfg, rep: &mut Report) {
                 note_expected_panic("test_util::*");
                 rep.distinct_nontrivial += 1;
             }
-            (Ok(got), false) => rep.violation(
+            (Ok(got), false) => crate::viol!(rep, 
                 format!("C06:shorthand-no-panic:{}", name),
                 format!("test_util::{}{:?} did not panic on an out-of-range argument; built {:?}", name, args, got),
                 rp,
             ),
-            (Err(m), true) => rep.violation(
+            (Err(m), true) => crate::viol!(rep, 
                 format!("C06:shorthand-panic:{}", name),
                 format!("test_util::{}{:?} panicked on valid arguments: {}", name, args, m),
                 rp,
@@ -367,7 +367,7 @@ fn shorthands(cfg: &Cfg, rep: &mut Report) {
         match (r, v <= 16383) {
             (Ok(g), true) if g == v => {}
             (Err(_), false) => note_expected_panic("test_util::*"),
-            (r, _) => rep.violation(
+            (r, _) => crate::viol!(rep, 
                 "C06:shorthand:u14",
                 format!("test_util::u14({}) -> {:?}", v, r),
                 json!({"kind":"shorthand","fn":"u14","args":[v]}),
@@ -385,7 +385,7 @@ fn shorthands(cfg: &Cfg, rep: &mut Report) {
                 match (r, x <= $max) {
                     (Ok(g), true) if g == x => {}
                     (Err(_), false) => note_expected_panic("test_util::*"),
-                    (r, _) => rep.violation(
+                    (r, _) => crate::viol!(rep, 
                         format!("C06:shorthand:{}", stringify!($name)),
                         format!("test_util::{}({}) -> {:?}", stringify!($name), x, r),
                         json!({"kind":"shorthand","fn":stringify!($name),"args":[x]}),
@@ -426,7 +426,7 @@ fn shorthands(cfg: &Cfg, rep: &mut Report) {
                     match (r, valid) {
                         (Ok(g), true) if g == (c, n8, v) => {}
                         (Err(_), false) => note_expected_panic("test_util::*"),
-                        (r, _) => rep.violation(
+                        (r, _) => crate::viol!(rep, 
                             "C06:shorthand:control_change_14_bit",
                             format!("test_util::control_change_14_bit({},{},{}) -> {:?}", c, n8, v, r),
                             json!({"kind":"shorthand","fn":"control_change_14_bit","args":[c,n8,v]}),
@@ -443,7 +443,7 @@ fn shorthands(cfg: &Cfg, rep: &mut Report) {
                             match (r, valid) {
                                 (Ok(g), true) if g == (c, n, v, $reg, $b14, DataType::DataEntry) => {}
                                 (Err(_), false) => note_expected_panic("test_util::*"),
-                                (r, _) => rep.violation(
+                                (r, _) => crate::viol!(rep, 
                                     format!("C06:shorthand:{}", stringify!($name)),
                                     format!("test_util::{}({},{},{}) -> {:?}", stringify!($name), c, n, v, r),
                                     json!({"kind":"shorthand","fn":stringify!($name),"args":[c,n,v]}),
